@@ -947,7 +947,10 @@ pub fn verify_cross_table_lookups_circuit<
             );
 
             // Get elements looking into `looked_table` that are not associated to any STARK.
-            let extra_sum = ctl_extra_looking_sum.map(|v| v[c]).unwrap_or_default();
+            let extra_sum = match ctl_extra_looking_sum {
+                Some(v) => v[c],
+                None => builder.zero(),
+            };
             looking_zs_sum = builder.add(looking_zs_sum, extra_sum);
 
             // Get the looked table CTL polynomial opening.
